@@ -256,7 +256,9 @@ theorem mimc7_Hash_ok_true (arr : List Int) (key : Option Int) : mimc7_Hash_ok a
 theorem mimc7_MIMC7Hash_ok_true (x k : Int) : mimc7_MIMC7Hash_ok x k = true := GoSafe.mimc7_MIMC7Hash_ok_true x k
 
 /-- **`mimc7.MIMC7HashGeneric(x, k, nRounds)`** panics exactly for `nRounds ≤ 0` — there Go really panics:
-    `make([]*ff.Element, nRounds)` with a negative length, resp. `cts[0]` on an empty slice. -/
+    `make([]*ff.Element, nRounds)` with a negative length, resp. `cts[0]` on an empty slice.  (Reading `ok` as
+    "the Go call returns": up to Go's allocation limit.  `make` above ≈ 2^45 elements panics with `makeslice: len out
+    of range` instead of exhausting memory; the checked variant treats both alike and does not require a bound.) -/
 theorem mimc7_MIMC7HashGeneric_ok_iff (x k n : Int) : mimc7_MIMC7HashGeneric_ok x k n = true ↔ 1 ≤ n :=
   GoSafe.mimc7_MIMC7HashGeneric_ok_iff x k n
 
